@@ -112,8 +112,16 @@ fn gen_elem(r: &mut Rng, nested: bool) -> Item {
     }
 }
 
-fn gen_args(r: &mut Rng, op: &str, len: usize, nested: bool) -> Vec<Sx> {
+fn gen_args(r: &mut Rng, op: &str, cur: &[Item], nested: bool) -> Vec<Sx> {
+    let len = cur.len();
     let p = |r: &mut Rng| Sx::Atom((r.below(len as u64 + 3)).to_string());
+    let sx = |i: &Item| parse_line(&enc_item(i)).unwrap().remove(0);
+    // comparisons are probed with the element that is there, and with an element that only PRINTS like it
+    if (op == "equal_at" || op == "last_eq") && len > 0 && r.chance(1, 2) {
+        let k = if op == "last_eq" { 0 } else { r.below(len as u64) as usize };
+        let probe = if r.chance(1, 2) { cur[k].clone() } else { crate::gen::print_alike(r, &cur[k]) };
+        return if op == "last_eq" { vec![sx(&probe)] } else { vec![Sx::Atom(k.to_string()), sx(&probe)] };
+    }
     let it = |r: &mut Rng| parse_line(&enc_item(&gen_elem(r, nested))).unwrap().remove(0);
     match op {
         "last_eq" | "push" | "push_front" => vec![it(r)],
@@ -140,7 +148,7 @@ pub fn run(seed: u64, tier: &str, out: &mut dyn FnMut(String)) {
         for _ in 0..len {
             // bias towards growth so that deep stacks are reached
             let op = if r.chance(1, 4) { *r.pick(&["push", "push_front", "push_vec"]) } else { *r.pick(&OPS) };
-            let args = gen_args(&mut r, op, cur.len(), nested);
+            let args = gen_args(&mut r, op, &cur, nested);
             let (line, post) = observe(&cur, op, &args);
             out(line);
             match post {
